@@ -190,6 +190,13 @@ def main():
   h = Counter(locked=False)
   r1 = h.run_once([]); r2 = h.run_once([])
   expect('replay reproduces identical event log', r1.log_digest == r2.log_digest, r1.steps)
+  # the shims must not be more tolerant than the primitives they stand in for
+  from vmc import shimconf
+  cases, mismatches = shimconf.run()
+  expect('shims conform to the real primitives (vmc.shimconf)', not mismatches,
+         f'{cases} operation sequences, {len(mismatches)} mismatches')
+  for m in mismatches[:20]:
+    print(m)
   return 0 if ok else 1
 
 
